@@ -101,10 +101,27 @@ func (s *srcFile) topVar(name string) ast.Expr {
 	return nil
 }
 
+// funcDecl finds a function by name in the file, and failing that in the other non-test files of the same
+// package directory (a function moved to a sibling file is still the same function).
 func (s *srcFile) funcDecl(name string) *ast.FuncDecl {
 	for _, d := range s.f.Decls {
 		if fd, ok := d.(*ast.FuncDecl); ok && fd.Name.Name == name {
 			return fd
+		}
+	}
+	sibs, _ := filepath.Glob(filepath.Join(filepath.Dir(s.path), "*.go"))
+	for _, p := range sibs {
+		if p == s.path || strings.HasSuffix(p, "_test.go") {
+			continue
+		}
+		f, err := parser.ParseFile(s.fset, p, nil, parser.ParseComments)
+		if err != nil {
+			continue
+		}
+		for _, d := range f.Decls {
+			if fd, ok := d.(*ast.FuncDecl); ok && fd.Name.Name == name && fd.Body != nil {
+				return fd
+			}
 		}
 	}
 	return nil
